@@ -75,6 +75,10 @@ def make_source(kind, nt, ns, fmt, dt_us, t0):
                        TF.ShotPoint: 77, TF.SourceGroupScalar: -100}
     if kind == '2d':
         mk_segy_2d(sgy, data, dt_us=dt_us, t0=t0, fmt=fmt, hdr=extra)
+    elif kind == '2d_off':
+        # an un-numbered 2D line whose traces carry distinct OFFSET values (segyio, strict=False, reports 1 inline x 1 crossline x
+        # n offsets): still one trace per ordinal
+        mk_segy_2d(sgy, data, dt_us=dt_us, t0=t0, fmt=fmt, hdr=lambda t: {**extra(t), TF.offset: 50 + 25 * t})
     elif kind == 'one_il':
         mk_segy(sgy, data.reshape(1, nt, ns), [7], list(range(20, 20 + nt)), dt_us=dt_us, t0=t0, fmt=fmt, hdr=lambda t, i, x: extra(t))
     else:
@@ -484,6 +488,8 @@ try:
     # trace counts whose header arrays are an exact multiple of 512 bytes (footer stride boundary): 128 traces, and one either side
     for nt in ((127, 128, 129) if quick else (127, 128, 129, 255, 256, 257)):
         run_case('2d', nt, rng.choice([5, 9]), 8, (1, 16, -1), 5, 4000, 0, rng.choice(['heuristic', 'thorough']))
+    for nt in ((21, 37) if quick else (5, 21, 32, 37, 64)):
+        run_case('2d_off', nt, rng.choice([9, 12, 30]), 8, (1, 16, -1), 5, 4000, 0, rng.choice(['heuristic', 'exhaustive']))
     two_lines()
     refusals()
     batch_model()
